@@ -436,7 +436,8 @@ class Interp:
         last2 = "::".join(segs[-2:])
         if last2 in self.consts:
             return self.consts[last2]
-        if segs[0] in ("Error", "PlonkVersion") or (len(segs) >= 2 and segs[-2] in ("Error", "PlonkVersion")):
+        ENUMS = ("Error", "PlonkVersion", "Selector", "WiredWitness")
+        if segs[0] in ENUMS or (len(segs) >= 2 and segs[-2] in ENUMS):
             return VOpaque(last2)
         self.fail(e, f"unknown path `{p}`")
 
@@ -477,6 +478,12 @@ class Interp:
             return VOpaque("ne" if op == "!=" else "eq", [l, r])
         if op in ("<", "<=", ">", ">=") and isinstance(l, int) and isinstance(r, int):
             return {"<": l < r, "<=": l <= r, ">": l > r, ">=": l >= r}[op]
+        if op in ("<", "<=", ">", ">="):
+            return VOpaque({"<": "lt", "<=": "le", ">": "gt", ">=": "ge"}[op], [l, r])
+        if op in ("/", "%") and isinstance(l, int) and isinstance(r, int) and r != 0:
+            return l // r if op == "/" else l % r
+        if op in ("/", "%"):
+            return VOpaque("div" if op == "/" else "rem", [l, r])
         self.fail(e, f"binary operator {op}")
 
     def arith(self, op, l, r, node):
@@ -615,6 +622,20 @@ class Interp:
                 if isinstance(rv, VErr):
                     self.ctx.exits.append(("err_if", c, rv.what))
                     return UNIT
+            # guarded effects: `if c { effects }` where the block only produces trace events (no assignment to
+            # outer state, no early return): recorded as ONE event  if(c, [events])
+            if not _has_mutation(e["then"]):
+                saved = self.ctx.log
+                self.ctx.log = []
+                try:
+                    self.block(e["then"], env)
+                except Return:
+                    self.ctx.log = saved
+                    self.fail(e, "early return inside a symbolic branch")
+                sub = tuple(self.ctx.log)
+                self.ctx.log = saved
+                self.ctx.event("if", canon(c), sub)
+                return UNIT
         self.fail(e, "branch on a symbolic value")
 
     def e_match(self, e, env):
@@ -782,7 +803,7 @@ class Interp:
             return VArr(recv.items, "vec")
         if m == "len" and isinstance(recv, (VArr, VIter)):
             return len(recv.items)
-        if m == "len" and isinstance(recv, Sym) and not args:
+        if m == "len" and isinstance(recv, (Sym, VOpaque, Poly)) and not args:
             return VOpaque("len", [recv])
         if m == "for_each" and isinstance(recv, VSymIter) and isinstance(args[0], VClosure):
             # `xs.iter().for_each(|x| B)` over a slice of unknown length: B is executed once on the generic
@@ -864,6 +885,21 @@ def _pat_names(pat):
     if k == "struct":
         return [n for f in pat["fields"] for n in _pat_names(f["pat"])]
     return []
+
+
+def _has_mutation(node):
+    if isinstance(node, dict):
+        if node.get("k") == "assign":
+            return True
+        if node.get("k") == "binary" and node.get("op", "").endswith("=") and node["op"] not in ("==", "!=", "<=", ">="):
+            return True
+        if node.get("k") == "mcall" and node.get("m") in ("push", "extend", "extend_from_slice", "copy_from_slice") \
+                and node["recv"].get("k") == "path" and len(node["recv"].get("segs", [])) == 1:
+            return True
+        return any(_has_mutation(v) for v in node.values())
+    if isinstance(node, list):
+        return any(_has_mutation(v) for v in node)
+    return False
 
 
 def _pat_mut_names(pat):
